@@ -193,42 +193,75 @@ func lazyBurst(bi int, b *Behaviour, m *Map, hv *keyHarvester, mult int) (TraceR
 		st := b.Steps[si]
 		switch st.A {
 		case "Exec":
-			// a maximal run of Exec steps = one concurrent burst (each step mult times)
+			// Only calls that are served from cache without changing it commute. A maximal run of Exec
+			// steps on which the model serves a STALE answer becomes one concurrent burst (each step mult
+			// times) — but only after a first, sequential call has really been served from cache; every
+			// other Exec step (miss / fresh hit) runs alone.
 			var run []Step
-			for si < len(b.Steps) && b.Steps[si].A == "Exec" {
-				run = append(run, b.Steps[si])
+			if st.O.Res == "stale" {
+				for si < len(b.Steps) && b.Steps[si].A == "Exec" && b.Steps[si].O.Res == "stale" {
+					run = append(run, b.Steps[si])
+					si++
+				}
+			} else {
+				run = []Step{st}
 				si++
 			}
 			var wg sync.WaitGroup
-			for _, s := range run {
-				for k := 0; k < mult; k++ {
+			one := func(s Step) string {
+				cq, err := m.conc(s.Q)
+				if err != nil {
+					return "error"
+				}
+				mu.Lock()
+				sid := w.serial
+				w.serial++
+				mu.Unlock()
+				er := in.exec(cq, s.R, sid)
+				o := observe(er, 5)
+				ao := toAbs(m, o)
+				mu.Lock()
+				if o.Res == "miss" {
+					kn[sid] = known{cq, s.R}
+				}
+				if o.Res == "hit" {
+					if k0, ok := kn[o.Sid]; ok {
+						ao.Cont = contOf(er.resp, k0.cq, k0.ar, o.Sid)
+					}
+				}
+				w.events = append(w.events, ev{"ev": "Exec", "i": 1, "q": absQ(s.Q), "r": absR(s.R), "sid": sid,
+					"o": ev{"res": ao.Res, "owner": absOwner(ao.Owner), "id": ao.Id, "ttls": ao.Ttls, "cont": ao.Cont, "idok": ao.Idok}})
+				mu.Unlock()
+				return o.Res
+			}
+			concurrent := st.O.Res == "stale"
+			for ri, s := range run {
+				k0 := 0
+				if concurrent {
+					// probe sequentially; if the real plugin does not serve this key from cache, stay sequential
+					if one(s) != "hit" {
+						concurrent = false
+					}
+					k0 = 1
+				}
+				_ = ri
+				for k := k0; k < mult; k++ {
+					if !concurrent {
+						if k0 == 0 && k > 0 {
+							break // a non-stale step runs exactly once
+						}
+						if k0 == 0 {
+							one(s)
+							break
+						}
+						one(s)
+						continue
+					}
 					s := s
 					wg.Add(1)
 					go func() {
 						defer wg.Done()
-						cq, err := m.conc(s.Q)
-						if err != nil {
-							return
-						}
-						mu.Lock()
-						sid := w.serial
-						w.serial++
-						mu.Unlock()
-						er := in.exec(cq, s.R, sid)
-						o := observe(er, 5)
-						ao := toAbs(m, o)
-						mu.Lock()
-						if o.Res == "miss" {
-							kn[sid] = known{cq, s.R}
-						}
-						if o.Res == "hit" {
-							if k0, ok := kn[o.Sid]; ok {
-								ao.Cont = contOf(er.resp, k0.cq, k0.ar, o.Sid)
-							}
-						}
-						w.events = append(w.events, ev{"ev": "Exec", "i": 1, "q": absQ(s.Q), "r": absR(s.R), "sid": sid,
-							"o": ev{"res": ao.Res, "owner": absOwner(ao.Owner), "id": ao.Id, "ttls": ao.Ttls, "cont": ao.Cont, "idok": ao.Idok}})
-						mu.Unlock()
+						one(s)
 					}()
 				}
 			}
